@@ -1443,10 +1443,10 @@ class Obj(Container):
         if self.name == tensor_names.fock:
             space = self.space
             assert len(space) == 2
-            if space[0] == space[1]:  # diagonal block
-                bl_diag = self.sympy
-            else:  # off diagonal block
+            if space in ("ov", "vo"):  # off diagonal block
                 bl_diag = 0
+            else:  # diagonal block or a block with a general index
+                bl_diag = self.sympy
         else:
             bl_diag = self.sympy
         if return_sympy:
